@@ -1541,6 +1541,10 @@ def do_replacement_cmake(line: str, at_only: bool,
                     if not match:
                         value = variable_get(varname)
                         line = line[:index] + value + line[next_at+1:]
+                        if not value:
+                            # nothing was inserted: line[index] is the next
+                            # unscanned character
+                            continue
 
             elif not at_only and line[index:index+2] == '${':
                 bracket_count = 1
@@ -1581,6 +1585,8 @@ def do_replacement_cmake(line: str, at_only: bool,
 
                     value = variable_get(varname)
                     line = line[:index] + value + line[end_bracket:]
+                    if not value:
+                        continue
 
             index += 1
 
